@@ -33,7 +33,9 @@ type gen struct {
 }
 
 func newGen(r *rand.Rand, w *world, correct []int) *gen {
-	line := cfgLine(w, correct)
+	// clock skew tolerated in the synchronous suffix: below the smallest timeout (1000 ms)
+	skew := int64([]int{0, 0, 1, 100, 500, 999}[r.Intn(6)])
+	line := cfgLine(w, correct, skew)
 	nt := newNet(line)
 	if nt == nil {
 		panic("generator produced a cfg line the harness rejects: " + line)
@@ -278,7 +280,7 @@ func (g *gen) syncSuffix(maxFires int, byzKeepsGoing bool) {
 		}
 		var pend []int
 		for i, s := range g.nt.nodes {
-			if s.live() && s.tick.pending {
+			if s.live() && s.tick.pending && g.nt.due(i) {
 				pend = append(pend, i)
 			}
 		}
